@@ -30,6 +30,29 @@ CLAIMED = {
         'runtime fact decided by value comparison.',
    technique='Coq proof of the ring kernels + exact differential testing of the operator layer (Coq model and Fraction reference)',
    design='4/C02'),
+ 'C03': dict(
+   text='Theorem (every commutative ring of values -- so with K[t]/(t^D) every Taylor order at once --, every well-formed tape with arithmetic, '
+        'unary functions with arbitrary derivative tables, powers, buffers, views and in-place writes incl. y[k] = view of y[k], every input, '
+        'direction and seed; closed under the global context): the reverse sweep of the model (adjoint heap mirroring the value heap, restore '
+        'step after the pullback of an in-place write) is the transpose of the forward tangent sweep, sum_i xbar_i dx_i = sum_j ybar_j '
+        '(F\'(x) dx)_j; the setitem pullback as it stood before the repair is refuted by a kernel-checked witness (this refutation, produced by '
+        'the failed proof attempt, exposed a real defect that was then repaired). On every run: the adjoint identity on the implementation for '
+        'generated programs (F\'v from forward propagation alone, evaluation point != recording point, D<=4, P<=3, all orders), every xbar '
+        'coefficient of rational scalar programs with buffers against the Coq model, and documented unsupported operations raising.',
+   note=NOTE_COMMON + 'Pullbacks of array-level operations (dot, outer, inv, solve, det, reshape, transpose, sum, factorizations) are not in the tape theorem: adjoint-identity predicate only.',
+   technique='Coq proof (potential-function invariant over the tape with heaps) + adjoint-identity predicate on the implementation + model correspondence',
+   design='4/C03'),
+ 'C04': dict(
+   text='Theorems: gradient / Jacobian rows / vector-Jacobian products of the model pair with every direction to the forward tangent '
+        '(corollaries of the adjoint theorem, any ring of values, hence Hessian information over K[t]/(t^2) and Taylor expansions of Jacobian '
+        'entries over K[t]/(t^D)); replay IS direct evaluation at the new point, so results depend on the evaluation point only; sweeping '
+        'with the cells saved at the recording point (the unrepaired behaviour) is refuted by a kernel-checked witness. On every run: all 8 '
+        'drivers at points different from the recording point, graphs recorded from ndarray or UTPM, against the forward-mode drivers; '
+        'integer polynomial programs (with buffers) at integer points against the exact derivatives of the Coq model with tolerance 0; '
+        'jacobian(UTPM) against forward propagation.',
+   note=NOTE_COMMON + 'The forward-mode drivers used as reference are decided by C09/C01.',
+   technique='Coq proof (corollaries of the reverse-sweep adjoint theorem; replay = evaluation) + exact correspondence + forward-mode cross-check',
+   design='4/C04'),
  'C05': dict(
    text='Theorems (every commutative ring of values, every well-formed program with buffers/views/in-place writes, every input; closed '
         'under the global context): recording appends exactly the nodes of the executed operations, numbered in execution order, each '
